@@ -15,7 +15,7 @@ import (
 func mkStr(sym byte, i, k int) string  { return itemID(sym, i, k) }
 func expStr(sym byte, i, k int) string { return fmt.Sprintf("%c%d%d", sym, i, k) }
 
-var strView = view[string]{show: func(s string) string { return s }, sym: func(s string) byte {
+var strView = &view[string]{show: func(s string) string { return s }, sym: func(s string) byte {
 	if len(s) == 0 {
 		return 0
 	}
@@ -25,7 +25,7 @@ var strView = view[string]{show: func(s string) string { return s }, sym: func(s
 func mkDoc(sym byte, i, k int) string  { return "doc:" + itemID(sym, i, k) }
 func expDoc(sym byte, i, k int) string { return fmt.Sprintf("doc:%c%d%d", sym, i, k) }
 
-var docView = view[string]{show: func(s string) string { return s }, sym: func(s string) byte {
+var docView = &view[string]{show: func(s string) string { return s }, sym: func(s string) byte {
 	if len(s) < 5 {
 		return 0
 	}
@@ -44,7 +44,7 @@ func mkTK(sym byte, i, k int) *openfgav1.TupleKey {
 }
 func expTK(sym byte, i, k int) string { return fmt.Sprintf("doc:%c%d%d#viewer@user:x", sym, i, k) }
 
-var tkView = view[*openfgav1.TupleKey]{show: showTK, sym: func(t *openfgav1.TupleKey) byte {
+var tkView = &view[*openfgav1.TupleKey]{show: showTK, sym: func(t *openfgav1.TupleKey) byte {
 	if len(t.GetObject()) < 5 {
 		return 0
 	}
@@ -69,13 +69,13 @@ func expUserTuple(sym byte, i, k int) string {
 	return fmt.Sprintf("doc:o%d%d#viewer@user:%c", i, k, sym)
 }
 
-var objTupleView = view[*openfgav1.Tuple]{show: func(t *openfgav1.Tuple) string { return showTK(t.GetKey()) }, sym: func(t *openfgav1.Tuple) byte {
+var objTupleView = &view[*openfgav1.Tuple]{show: func(t *openfgav1.Tuple) string { return showTK(t.GetKey()) }, sym: func(t *openfgav1.Tuple) byte {
 	if o := t.GetKey().GetObject(); len(o) == 5 {
 		return o[4]
 	}
 	return 0
 }}
-var userTupleView = view[*openfgav1.Tuple]{show: func(t *openfgav1.Tuple) string { return showTK(t.GetKey()) }, sym: func(t *openfgav1.Tuple) byte {
+var userTupleView = &view[*openfgav1.Tuple]{show: func(t *openfgav1.Tuple) string { return showTK(t.GetKey()) }, sym: func(t *openfgav1.Tuple) byte {
 	if u := t.GetKey().GetUser(); len(u) == 6 {
 		return u[5]
 	}
@@ -193,7 +193,7 @@ func adapters() []*adapter {
 	} {
 		m := m
 		cm := newCarrier(m.mk, m.exp)
-		vw := view[string]{show: func(s string) string { return s }, sym: func(s string) byte {
+		vw := &view[string]{show: func(s string) string { return s }, sym: func(s string) byte {
 			if len(s) <= m.pos {
 				return 0
 			}
@@ -276,7 +276,7 @@ func adapters() []*adapter {
 	// combination (drop, err) is left out because the doc does not say whether later filters are consulted.
 	pairVerdict := [5][2]int{{vPass, vPass}, {vPass, vDrop}, {vDrop, vPass}, {vErr, vPass}, {vPass, vErr}}
 	as = append(as, &adapter{
-		name: "iterator.NewFilteredIterator/2", arity: 1, params: 125, headUnsupported: true,
+		name: "iterator.NewFilteredIterator/2", arity: 1, params: 125, headUnsupported: true, quickLen: 2,
 		paramDesc: func(p int) string {
 			n := []string{"pass", "drop", "error"}
 			s := "filters (f1,f2)"
@@ -353,7 +353,7 @@ func adapters() []*adapter {
 		name   string
 		mapper storage.TupleMapperFunc
 		c      *carrier[*openfgav1.Tuple]
-		vw     view[*openfgav1.Tuple]
+		vw     *view[*openfgav1.Tuple]
 	}
 	for _, m := range []om{
 		{"ObjectMapper", storage.ObjectMapper(), cObjTuple, objTupleView},
@@ -404,7 +404,7 @@ func adapters() []*adapter {
 	for _, n := range []int{1, 2} {
 		n := n
 		as = append(as, &adapter{
-			name: fmt.Sprintf("iterator.FromChannel/%d", n), arity: n, params: 1 << n, asyncStop: true, lazyInputs: true,
+			name: fmt.Sprintf("iterator.FromChannel/%d", n), arity: n, params: 1 << n, asyncStop: true, lazyInputs: true, quickLen: 4 - n,
 			paramDesc: func(p int) string {
 				s := "messages:"
 				for i := 0; i < n; i++ {
